@@ -16,10 +16,13 @@ MANIFEST = dict(
          "modelled pipeline (atoms -> candidates -> literal verification -> ordered insertion) reports exactly Text.allMatches (the documented occurrences, ascending, no duplicates, "
          "true length and key) provided the candidate stage is complete; the model is tied to the code by diffing the real scanner's match lists with the Lean spec on "
          "adversarially planted buffers, and completeness of the real automaton stage is checked per case through the atom/candidate hooks. base64/base64wide are checked "
-         "against the spec of the three documented alternatives (sampled). Thm/AcBuild.lean proves, for EVERY list of non-empty atoms and EVERY buffer, that the automaton "
+         "against the spec of the three documented alternatives (sampled). Thm/AcBuild.lean proves, for EVERY list of atoms (zero-length atoms included) and EVERY buffer, that the automaton "
          "the modelled construction builds (ahocorasick.c: trie insertion, BFS failure links with match-list inheritance, failure-link optimisation, first-fit table packing "
-         "with growth) reports exactly the atom occurrences (build_sound; zero-length atoms are outside the theorem); that model is tied to the code by requiring the tables "
-         "it builds from the logged atoms to EQUAL the real transition/match tables and match pool, entry for entry, on every generated rule set (sampled). "
+         "with growth) reports exactly the atom occurrences — as a set (build_sound) and as the exact SEQUENCE the scan loop of scanner.c delivers (build_scan_exact: every position 0..|buf| incl. "
+         "the pass after the loop, longest atom first, newest first among equal atoms, zero-length atoms last and at every position, the `backtrack <= i` guard) — and that the table-size "
+         "assertion cannot fail for rule sets with at most 32637 atom bytes (build_some). That model is tied to the code by requiring the tables it builds from the logged atoms to EQUAL "
+         "the real transition/match tables and match pool, entry for entry, and the real candidate sequence (hook yr_verif_on_candidate) to EQUAL both the model scan over the built tables "
+         "and the specification sequence, order included, on every generated rule set and buffer (sampled). "
          "Thm/C01EndToEnd.lean composes the two (text_strings_end_to_end): for every rule set of text strings sharing one automaton, every window choice and every buffer, "
          "the model's whole chain atoms -> construction -> scan -> verification -> insertion reports exactly each string's documented occurrences, with no hypothesis "
          "about the candidate stage left (the two known deviations F19 / F20 of the verification step remain as explicit hypotheses).",
@@ -381,7 +384,7 @@ def run(tier, replay=None):
                                                   "driver": l, "case": [c for c in cases if c["id"] == cid][:1], "engine": "ac"}, no_input=True)
             found = True
         # construction tie (Thm/AcBuild): the Lean model of ahocorasick.c must build EXACTLY these tables from the logged atoms
-        found = acbuild.report(chk, acbuild.compare(impl), {h.split(" ", 1)[0]: h for h in hl}, "case") or found
+        found = acbuild.report(chk, acbuild.compare(impl, {c["id"]: c["buf"] for c in cases}), {h.split(" ", 1)[0]: h for h in hl}, "case") or found
         certs_ac["construction_model_equal"] = dict(acbuild.compare.last)
         if not replay:
             found = acbuild.run_extra(chk, b, core.rng("C01-acbuild"), "text", tier) or found
